@@ -19,6 +19,7 @@ RULE = ("all four segment types, t in [0,1]; Beziers whose first / last control 
         "distinct by case hash.")
 ASSUMPTIONS = ["interior cusps (two different one-sided limits) make no claim and are not generated",
                "regular point: |B'(t)| > 1e-6 * size; tolerance 1e-9 on unit vectors (1e-6 for arcs, cf. C04), curvature to 1e-7 relative"]
+RULE += ' Also: Both numpy error states; transforms through 3x3 matrices and by 2^-30 / 2^20; numpy arrays of parameters must give the per-parameter values.'   # added after the seeded-change rounds (DESIGN.md section 10)
 CONFIGS = ['scipy']
 BUDGET = {'quick': 30000, 'thorough': 500000}
 REQUIRED = ['array_t', 'numpy_errstate_default', 'singular_transform:matrix', 'singular_transform:scaled_tiny', 'transform:matrix', 'transform:scaled_tiny', 'transform:scaled_huge', 'singular_transform:scaled', 'singular_transform:rotated', 'singular:t0', 'singular:t1', 'regular', 'numpy_coords', 'kind:A', 'kind:L', 'transform:rotated', 'transform:scaled_neg',
